@@ -568,6 +568,7 @@ func main() {
 		os.MkdirAll(o.Out, 0755)
 		workDir = o.Out
 	}
+	defer os.Remove(tableFile())
 	if strings.HasPrefix(o.Extra, "constchild:") {
 		constChild(o.Extra[len("constchild:"):])
 		return
